@@ -1,8 +1,34 @@
 import IOptProofs.S3Defs
-/-! kernel-evaluated certificates of StronginC3: value clause, global clause, location clause -/
+/-! kernel-evaluated certificates of StronginC3: value clause, global clause, location clause, metadata row -/
 namespace S3
 set_option maxRecDepth 100000
 theorem certV_true : certV = true := by decide +kernel
 theorem certG_true : certG = true := by decide +kernel
 theorem certP_true : certP = true := by decide +kernel
+
+/-- the certified lower bound of `(A+B)(w)` exceeds the certified upper bound of `(A+B)(p)`: `f(w) < f(p)` -/
+theorem certW_true : Nat.blt (ub PX (Nat.add PX 1) PY (Nat.add PY 1)) (lbA WX WX WY WY) = true := by decide +kernel
+
+/-- the doubles `0.0`, `-1.0`, `4.0`, `3.0` -/
+def dy0 : Dy := Dy.ofBits 0
+def dyM1 : Dy := Dy.ofBits 0xbff0000000000000
+def dy4 : Dy := Dy.ofBits 0x4010000000000000
+def dy3 : Dy := Dy.ofBits 0x4008000000000000
+
+/-- what the metadata row (read from the running `StronginC3()` object) declares -/
+theorem metaRow_spec :
+    metaRow.family = 7 ∧ metaRow.dimension = 2 ∧ metaRow.nFloat = 2 ∧ metaRow.nObjectives = 1 ∧
+    metaRow.nConstraints = 3 ∧ metaRow.nOptima = 1 ∧
+    metaRow.lower = [dy0, dyM1] ∧ metaRow.upper = [dy4, dy3] ∧
+    metaRow.optPoint = [pD, pD] ∧ metaRow.optValue = vD := by decide +kernel
+
+/-- the last row is the only row of family code 7 -/
+theorem family7_rows : famRows 7 Gen.metaRowsPacked.toList 1000000 = [Gen.metaRowsPacked.back!] := by
+  decide +kernel
+
+theorem metaRows_length_le : Gen.metaRowsPacked.toList.length ≤ 1000000 := by decide +kernel
+
+theorem lits_lengths : Gen.S3.objectiveLits.length = 9 ∧ Gen.S3.constraint0Lits.length = 6 ∧
+    Gen.S3.constraint1Lits.length = 8 ∧ Gen.S3.constraint2Lits.length = 5 := by decide
+
 end S3
